@@ -13,10 +13,22 @@ all inputs:
   slice length (binary search), ≤ number of patterns of the query (BGP) — for any amount of data.
 * the two formulations compute the same results (`…_rec_eq_…_loop`): turning the self call into a
   loop is behaviour-preserving.
-* over the generated table `Gen.RecursionSites.sites`: every row that is not `selfRecursiveOnData`
-  is bounded (`table_verdict`), every row that is, is refuted (`table_refuted`), every row is known
-  to the model (`table_names_known`, decided on the current table), and `table_status` is the
-  property-level dichotomy on the current table.
+* every function that recurses on nesting has its own instrumented model (`Model/DepthNest.lean`) and
+  a bound by the nesting alone, for inputs of any size: `Term::{cmp,eq,hash}`, `nq`, N-Triples
+  `write_term ⇄ write_triple`, `cmp_bindings_with` under any sort, `jsonify` over any number of nodes,
+  `populate_list ⇄ convert_rdf_object`, `select ⇄ operators` over any number of named graphs, and the
+  prettifier's `write_term ⇄ … ⇄ write_properties`.
+* FINDING (kernel-checked): the prettifier's depth is bounded by the nesting of everything it nests
+  (`pretty_depth_bounded`), which includes anonymous blank nodes `[ … ]`; it is NOT bounded by the
+  nesting of the data (quoted triples, collections) — `pretty_full_refuted`: a chain of `n` blank
+  nodes (n plain statements) needs 5n + 1 nested calls.  `pretty_chain_status` follows the generated
+  `prettyBnodeNestingCap`: unbounded while /repo has no cap, bounded by the cap once it has.
+* over the generated table `Gen.RecursionSites.sites`: every row is known to the model
+  (`table_names_known`) and no row is `selfRecursiveOnData` (`table_all_bounded`) — both decided on
+  the table regenerated on every run, so a regression of either fails an obligation; every row that
+  is not `selfRecursiveOnData` is bounded on the harness family of every size (`table_verdict`,
+  through the general theorems above), a row that is, is refuted (`table_refuted`); `all_bounded` is
+  the unconditional statement for today's table.
 
 That one active call is one machine stack frame in an unoptimised build is the assumption validated
 by the differential tie (child processes on a 2 MiB stack), not a theorem.
@@ -305,19 +317,118 @@ theorem mark_rec_depth_linear (n : Nat) :
     | cons a l ih => simp [markRec, ih]
   rw [this]; simp
 
+/-! ## DedupIterator::next -/
+
+theorem dedup_rec_eq_loop {α : Type} [DecidableEq α] (prev : Option α) (xs : List α) :
+    (dedupRec prev xs).item = (dedupLoop prev xs).item ∧
+    (dedupRec prev xs).prev = (dedupLoop prev xs).prev ∧
+    (dedupRec prev xs).rest = (dedupLoop prev xs).rest := by
+  induction xs with
+  | nil => simp [dedupRec, dedupLoop]
+  | cons x xs ih =>
+    by_cases h : some x = prev
+    · simpa [dedupRec, dedupLoop, h] using ih
+    · simp [dedupRec, dedupLoop, h]
+
+theorem dedup_loop_depth_bounded {α : Type} [DecidableEq α] (prev : Option α) (xs : List α) :
+    (dedupLoop prev xs).depth ≤ 1 := by
+  induction xs with
+  | nil => simp [dedupLoop]
+  | cons x xs ih =>
+    by_cases h : some x = prev
+    · simpa [dedupLoop, h] using ih
+    · simp [dedupLoop, h]
+
+/-- REFUTATION for the recursive text: `n` statements with the same (graph, subject) as the previous
+one need `n` nested calls -/
+theorem dedup_rec_depth_linear {α : Type} [DecidableEq α] (x : α) (n : Nat) :
+    (dedupRec (some x) (List.replicate n x)).depth ≥ n := by
+  induction n with
+  | zero => simp
+  | succ n ih => simp only [List.replicate_succ, dedupRec]; simp; omega
+
 /-! ## recursion on nesting only: bounded by the nesting, whatever the amount of data -/
 
-/-- `write_term` / `Term::{eq,cmp,hash}`: calls = nesting of quoted triples + 1 -/
-theorem term_depth_bounded (t : Term) : termDepth t ≤ 1 + nesting t := by
-  induction t with
-  | triple s p o ihs ihp iho => simp only [termDepth, nesting]; omega
-  | _ => simp [termDepth, nesting]
+/-- the instrumented `Term::cmp` computes `Term.termCmp` (the order whose laws are C02's theorems) -/
+theorem term_cmp_fst (a b : Term) : (termCmpD a b).1 = Term.termCmp a b := by
+  induction a generalizing b with
+  | triple s1 p1 o1 ihs ihp iho =>
+    cases b with
+    | triple s2 p2 o2 =>
+      have hs := ihs s2; have hp := ihp p2; have ho := iho o2
+      simp only [termCmpD, Term.termCmp]
+      cases h1 : Term.termCmp s1 s2 <;> cases h2 : Term.termCmp p1 p2 <;>
+        simp_all [Ordering.then]
+    | _ => simp [termCmpD]
+  | _ => cases b <;> simp [termCmpD]
 
-/-- `nq`: calls ≤ nesting + 2 (one more for a literal's datatype) -/
-theorem nq_depth_bounded (t : Term) : nqDepth t ≤ 2 + nesting t := by
+/-- `Term::cmp`: at most one call per level of quoting of the LESS nested argument, whatever the
+lengths of the strings -/
+theorem term_cmp_depth_bounded (a b : Term) : (termCmpD a b).2 ≤ 1 + min (nesting a) (nesting b) := by
+  induction a generalizing b with
+  | triple s1 p1 o1 ihs ihp iho =>
+    cases b with
+    | triple s2 p2 o2 =>
+      have hs := ihs s2; have hp := ihp p2; have ho := iho o2
+      simp only [termCmpD, nesting]
+      split
+      · simp only []; omega
+      · split
+        · simp only []; omega
+        · simp only []; omega
+    | _ => simp [termCmpD]
+  | _ => cases b <;> simp [termCmpD]
+
+theorem term_eq_fst (a b : Term) : (termEqD a b).1 = Term.termEq a b := by
+  induction a generalizing b with
+  | triple s1 p1 o1 ihs ihp iho =>
+    cases b with
+    | triple s2 p2 o2 =>
+      have hs := ihs s2; have hp := ihp p2; have ho := iho o2
+      simp only [termEqD, Term.termEq]
+      cases h1 : Term.termEq s1 s2 <;> cases h2 : Term.termEq p1 p2 <;> simp_all
+    | _ => simp [termEqD]
+  | _ => cases b <;> simp [termEqD]
+
+theorem term_eq_depth_bounded (a b : Term) : (termEqD a b).2 ≤ 1 + min (nesting a) (nesting b) := by
+  induction a generalizing b with
+  | triple s1 p1 o1 ihs ihp iho =>
+    cases b with
+    | triple s2 p2 o2 =>
+      have hs := ihs s2; have hp := ihp p2; have ho := iho o2
+      simp only [termEqD, nesting]
+      split
+      · simp only []; omega
+      · split
+        · simp only []; omega
+        · simp only []; omega
+    | _ => simp [termEqD]
+  | _ => cases b <;> simp [termEqD]
+
+theorem term_hash_fst (t : Term) : (termHashD t).1 = Term.termHash t := by
   induction t with
-  | triple s p o ihs ihp iho => simp only [nqDepth, nesting]; omega
-  | _ => simp [nqDepth, nesting]
+  | triple s p o ihs ihp iho => simp [termHashD, Term.termHash, ihs, ihp, iho]
+  | _ => simp [termHashD]
+
+theorem term_hash_depth_bounded (t : Term) : (termHashD t).2 ≤ 1 + nesting t := by
+  induction t with
+  | triple s p o ihs ihp iho => simp only [termHashD, nesting]; omega
+  | _ => simp [termHashD]
+
+/-- `nq`: calls ≤ nesting + 2 (one more for a literal's datatype), for a lexical form of any length
+with any number of escaped characters -/
+theorem nq_depth_bounded (t : Term) : (nqW t).2 ≤ 2 + nesting t := by
+  induction t with
+  | triple s p o ihs ihp iho => simp only [nqW, nesting]; omega
+  | lit lex dt => simp only [nqW, nesting]; split <;> simp
+  | _ => simp only [nqW]; omega
+
+/-- N-Triples `write_term ⇄ write_triple`: two calls per level of quoting, none per character -/
+theorem nt_write_term_depth_bounded (t : Term) : (ntWriteTerm t).2 ≤ 1 + 2 * nesting t := by
+  induction t with
+  | triple s p o ihs ihp iho => simp only [ntWriteTerm, nesting]; omega
+  | lit lex dt => simp only [ntWriteTerm, nesting]; split <;> simp
+  | _ => simp [ntWriteTerm]
 
 theorem bits_mono {a b : Nat} (h : a ≤ b) : bits a ≤ bits b := by
   induction b using Nat.strongRecOn generalizing a with
@@ -379,42 +490,272 @@ theorem bgp_rec_depth_bounded {P B : Type} (ms : P → B → List B) (ps : List 
         exact ih b')
     omega
 
+/-- `cmp_bindings_with`: one call per ORDER BY criterion of the QUERY -/
+theorem cmp_bindings_depth_bounded {B C : Type} (ev : C → B → B → Ordering) (crit : List C) (b1 b2 : B) :
+    (cmpBindingsWith ev crit b1 b2).2 ≤ crit.length + 1 := by
+  induction crit with
+  | nil => simp [cmpBindingsWith]
+  | cons c rest ih =>
+    simp only [cmpBindingsWith, List.length_cons]
+    split
+    · simp only []; omega
+    · simp
+
+theorem foldl_step_le {α : Type} (step : Nat → α → Nat) (l : List α) (d b : Nat) (hd : d ≤ b)
+    (h : ∀ d x, d ≤ b → step d x ≤ b) : l.foldl step d ≤ b := by
+  induction l generalizing d with
+  | nil => simpa
+  | cons a l ih => exact ih _ (h d a hd)
+
+/-- `order_by`: whatever pairs of rows the sort compares, and however many rows there are -/
+theorem order_by_depth_bounded {B C : Type} (ev : C → B → B → Ordering) (crit : List C) (rows : List B) :
+    orderByDepth ev crit rows ≤ crit.length + 1 := by
+  unfold orderByDepth
+  apply foldl_step_le _ _ _ _ (by omega)
+  intro d a hd
+  apply foldl_step_le _ _ _ _ hd
+  intro d b hd
+  have := cmp_bindings_depth_bounded ev crit a b
+  omega
+
+theorem foldl_max_le' (l : List Nat) (d b : Nat) (hd : d ≤ b) (h : ∀ x ∈ l, x ≤ b) :
+    l.foldl max d ≤ b := by
+  induction l generalizing d with
+  | nil => simpa
+  | cons a l ih =>
+    simp only [List.foldl]
+    exact ih _ (by have := h a (by simp); omega) (fun x hx => h x (by simp [hx]))
+
+theorem jsonify_nested (nodes : List JNode) (j : Nat) : (jsonify nodes j false).2 = 1 := by
+  rw [jsonify]
+  split
+  · rfl
+  · split
+    · rfl
+    · split
+      · rfl
+      · simp
+
+/-- `jsonify`: a root call plus the calls for the nodes of the graph it names — two, for any number
+of nodes, graphs and statements -/
+theorem jsonify_depth_bounded (nodes : List JNode) (i : Nat) (root : Bool) :
+    (jsonify nodes i root).2 ≤ 2 := by
+  rw [jsonify]
+  split
+  · simp
+  · split
+    · simp
+    · split
+      · simp
+      · split
+        · split
+          · rename_i ng _
+            have := foldl_max_le' (ng.map (fun j => (jsonify nodes j false).2)) 0 1 (by omega) (by
+              intro x hx
+              obtain ⟨j, _, rfl⟩ := List.mem_map.mp hx
+              rw [jsonify_nested]; omega)
+            simp only []
+            omega
+          · simp
+        · simp
+
+theorem into_json_depth_bounded (nodes : List JNode) : intoJsonDepth nodes ≤ 2 := by
+  unfold intoJsonDepth
+  apply foldl_max_le' _ _ _ (by omega)
+  intro x hx
+  obtain ⟨i, _, rfl⟩ := List.mem_map.mp hx
+  exact jsonify_depth_bounded nodes i true
+
+mutual
+/-- `convert_rdf_object ⇄ populate_list`: two calls per level of list-in-list, none per list item -/
+theorem populate_convert_depth_bounded : ∀ i : LItem, convertD i ≤ 1 + 2 * i.nest
+  | .leaf => by simp [convertD, LItem.nest]
+  | .sub cells => by
+    have := populateD_le cells
+    simp only [convertD, LItem.nest]; omega
+theorem populateD_le : ∀ cs : LItems, populateD cs ≤ 2 + 2 * cs.nest
+  | .nil => by simp [populateD, LItems.nest]
+  | .cons i rest => by
+    have := populate_convert_depth_bounded i
+    have := populateD_le rest
+    simp only [populateD, LItems.nest]; omega
+end
+
+theorem foldl_const_max_le {α : Type} (l : List α) (c d : Nat) (hd : d ≤ c) :
+    l.foldl (fun d _ => max d c) d ≤ c := by
+  induction l generalizing d with
+  | nil => simpa
+  | cons a l ih => simp only [List.foldl]; exact ih _ (by omega)
+
+/-- `select ⇄ operators`: at most three calls per operator of the QUERY, for any number `g` of named
+graphs in the dataset -/
+theorem select_depth_bounded (g : Nat) (a : Alg) : selectD g a ≤ 3 * a.height + 1 := by
+  induction a with
+  | bgp => simp [selectD]
+  | unsupported => simp [selectD]
+  | union l r ihl ihr => simp only [selectD, Alg.height]; omega
+  | graphVar i ih =>
+    simp only [selectD, Alg.height]
+    have := foldl_const_max_le (List.range g) (selectD g i) 0 (by omega)
+    split <;> omega
+  | _ i ih => simp only [selectD, Alg.height]; omega
+
+mutual
+/-- the prettifier: at most six calls per level of ANYTHING it nests (quoted triple, collection,
+annotation, anonymous blank node), for any number of arcs per node and items per collection -/
+theorem pretty_depth_bounded : ∀ t : PT, wTerm t ≤ 1 + 6 * t.nestAll
+  | .atom => by simp [wTerm, PT.nestAll]
+  | .quoted s p o => by
+    have := pretty_depth_bounded s; have := pretty_depth_bounded p; have := pretty_depth_bounded o
+    simp only [wTerm, PT.nestAll]; omega
+  | .coll items => by
+    have := wItems_le items
+    simp only [wTerm, PT.nestAll]; omega
+  | .anon arcs => by
+    have := wProps_le arcs
+    simp only [wTerm, PT.nestAll]; omega
+theorem wItems_le : ∀ ts : PTs, wItems ts ≤ 2 + 6 * ts.nestAll
+  | .nil => by simp [wItems]
+  | .cons t ts => by
+    have := pretty_depth_bounded t; have := wItems_le ts
+    simp only [wItems, PTs.nestAll]; omega
+theorem wProps_le : ∀ a : PArcs, wProps a ≤ 5 + 6 * a.nestAll
+  | .nil => by simp only [wProps]; omega
+  | .cons p o v ann rest => by
+    have hp := pretty_depth_bounded p; have ho := pretty_depth_bounded o
+    have hr := wProps_le rest; have ha := wProps_le ann
+    cases ann with
+    | nil => cases v <;> simp only [wProps, PArcs.nestAll] <;> simp <;> omega
+    | cons p' o' v' ann' rest' =>
+      cases v <;> simp only [wProps, PArcs.nestAll] at ha ⊢ <;> simp <;> omega
+end
+
+theorem wTerm_chain (n : Nat) : wTerm (chainPT n) = 5 * n + 1 := by
+  induction n with
+  | zero => simp [chainPT, wTerm]
+  | succ n ih => simp only [chainPT, wTerm, wProps, ih]; simp; omega
+
+theorem nestData_chain (n : Nat) : (chainPT n).nestData = 0 := by
+  induction n with
+  | zero => simp [chainPT, PT.nestData]
+  | succ n ih => simp [chainPT, PT.nestData, PArcs.nestData, ih]
+
+theorem nestAll_chain (n : Nat) : (chainPT n).nestAll = n := by
+  induction n with
+  | zero => simp [chainPT, PT.nestAll]
+  | succ n ih => simp [chainPT, PT.nestAll, PArcs.nestAll, ih]; omega
+
+/-- the property's clause for the prettifier, at full strength: depth bounded by a function of the
+nesting of the DATA (quoted triples, collections) -/
+def PrettyFull : Prop := ∃ c k : Nat, ∀ t : PT, wTerm t ≤ c + k * t.nestData
+
+/-- FINDING: it does not hold.  `x:s x:p _:b0 . _:b0 x:p _:b1 . …`: `n` plain statements, no quoted
+triple, no collection — 5 n + 1 nested calls -/
+theorem pretty_full_refuted : ¬ PrettyFull := by
+  rintro ⟨c, k, h⟩
+  have := h (chainPT (c + 1))
+  rw [wTerm_chain, nestData_chain] at this
+  omega
+
+/-- … what does hold of the same text: the bound by data nesting PLUS the nesting of anonymous blank
+nodes (`nestAll` counts both; `pretty_depth_bounded`) -/
+theorem pretty_depth_bounded_partial (t : PT) : wTerm t ≤ 1 + 6 * t.nestAll := pretty_depth_bounded t
+
 /-! ## the generated table -/
 
 /-- every row of the table regenerated from /repo names a function the model knows
 (decided on the current table) -/
 theorem table_names_known : sites.all (fun s => (Fn.ofName s.1).isSome) = true := by decide
 
-theorem siteDepth_bounded (f : Fn) (cls : SiteClass) (h : cls ≠ .selfRecursiveOnData) (n : Nat) :
-    siteDepth f cls n ≤ siteBound f n := by
-  have hr : isRec cls = false := by cases cls <;> simp_all [isRec]
-  cases f <;> simp only [siteDepth, siteBound, hr, Fn.nestingDepth, Fn.arity] <;>
-    first
-    | exact next_loop_depth_bounded _ _ _
-    | exact quoted_loop_depth_bounded _
-    | exact graph_loop_depth_bounded _ _
-    | exact populate_loop_depth_bounded _ _ _
-    | exact mark_loop_depth_bounded _
-    | (cases cls <;> simp_all <;>
-        first
-        | omega
-        | (have := find_subject_depth_bounded (fun _ => Ordering.lt) (List.range n); simpa using this))
+/-- is any site classified `selfRecursiveOnData`? -/
+def anyDataRecursion : Bool := sites.any (fun s => isRec s.2)
 
-theorem siteDepth_linear (f : Fn) (n : Nat) : siteDepth f .selfRecursiveOnData n ≥ n := by
-  cases f <;> simp only [siteDepth, isRec, if_true, Fn.arity] <;>
+/-- no row of the table regenerated from /repo is a data recursion (decided on the current table:
+a self call on the remainder of the data anywhere in the anchored functions fails this obligation) -/
+theorem table_all_bounded : anyDataRecursion = false := by decide
+
+theorem nesting_famLiteral (n : Nat) : nesting (famLiteral n) = 0 := by simp [famLiteral, nesting]
+
+theorem nest_ofList_leaf (n : Nat) : (LItems.ofList (List.replicate n .leaf)).nest = 0 := by
+  induction n with
+  | zero => simp [LItems.ofList, LItems.nest]
+  | succ n ih => simp [List.replicate_succ, LItems.ofList, LItems.nest, LItem.nest, ih]
+
+theorem nest_famList (n : Nat) : (famList n).nest = 1 := by
+  simp [famList, LItem.nest, nest_ofList_leaf]
+
+theorem nestAll_ofList_atom (n : Nat) : (PTs.ofList (List.replicate n .atom)).nestAll = 0 := by
+  induction n with
+  | zero => simp [PTs.ofList, PTs.nestAll]
+  | succ n ih => simp [List.replicate_succ, PTs.ofList, PTs.nestAll, PT.nestAll, ih]
+
+theorem nestAll_famArcsAux (n k : Nat) : (famArcsAux n k).nestAll = 1 := by
+  induction k with
+  | zero => simp [famArcsAux, famListArc, PArcs.nestAll, PT.nestAll, nestAll_ofList_atom]
+  | succ k ih => simp [famArcsAux, PArcs.nestAll, PT.nestAll, ih]
+
+theorem wTree_famArcs (n : Nat) : wTree .atom (famArcs n) ≤ 5 + 6 * 1 := by
+  have := wProps_le (famArcs n)
+  rw [famArcs, nestAll_famArcsAux] at this
+  simp only [wTree, wTerm, famArcs]
+  omega
+
+/-- on the harness family of every size `n`, every site in the loop / nesting formulation stays
+within the bound that the general theorem of its model gives for the family's nesting -/
+theorem siteDepth_bounded (f : Fn) (cls : SiteClass) (h : cls ≠ .selfRecursiveOnData) (n : Nat) :
+    siteDepth f cls .flat n ≤ siteBound f n := by
+  have hr : isRec cls = false := by cases cls <;> simp_all [isRec]
+  cases f <;> simp only [siteDepth, siteBound, hr, Fn.arity, Bool.false_eq_true, if_false]
+  case gspoNext => exact next_loop_depth_bounded _ _ _
+  case bcdNext => exact next_loop_depth_bounded _ _ _
+  case cdNext => exact next_loop_depth_bounded _ _ _
+  case spoNext => exact next_loop_depth_bounded _ _ _
+  case bcNext => exact next_loop_depth_bounded _ _ _
+  case quotedString => exact quoted_loop_depth_bounded _
+  case graphRec => exact graph_loop_depth_bounded _ _
+  case populateList => exact populate_loop_depth_bounded _ _ _
+  case markListNode => exact mark_loop_depth_bounded _
+  case dedupNext => exact dedup_loop_depth_bounded _ _
+  case cmpBindingsWith => exact order_by_depth_bounded _ _ _
+  case bgpRec => exact bgp_rec_depth_bounded _ _ _
+  case jsonify => exact into_json_depth_bounded _
+  case findSubject =>
+    cases cls <;> simp_all <;>
+      first
+      | omega
+      | (have := find_subject_depth_bounded (fun _ => Ordering.lt) (List.range n); simpa using this)
+  case nq => have := nq_depth_bounded (famLiteral n); simp only [nesting_famLiteral] at this ⊢; exact this
+  case termCmp =>
+    have := term_cmp_depth_bounded (famLiteral n) (famLiteral n)
+    simp only [nesting_famLiteral] at this ⊢; omega
+  case termEq =>
+    have := term_eq_depth_bounded (famLiteral n) (famLiteral n)
+    simp only [nesting_famLiteral] at this ⊢; omega
+  case termHash => have := term_hash_depth_bounded (famLiteral n); simp only [nesting_famLiteral] at this ⊢; exact this
+  case ntWriteTermCycle =>
+    have := nt_write_term_depth_bounded (famLiteral n); simp only [nesting_famLiteral] at this ⊢; exact this
+  case selectCycle => exact select_depth_bounded n famQuery
+  case populateConvertCycle =>
+    have := populate_convert_depth_bounded (famList n); simp only [nest_famList] at this ⊢; exact this
+  case prettyWriteTerm => exact wTree_famArcs n
+  case prettyWriteCycle => exact wTree_famArcs n
+
+theorem siteDepth_linear (f : Fn) (sh : Shape) (n : Nat) : siteDepth f .selfRecursiveOnData sh n ≥ n := by
+  cases f <;> simp only [siteDepth, isRec, if_true, Fn.arity, assumedLinear] <;>
     first
     | exact next_rec_depth_linear _ _ _
     | exact quoted_rec_depth_linear _
     | exact graph_rec_depth_linear _
     | exact populate_rec_depth_linear _
     | exact mark_rec_depth_linear _
+    | exact dedup_rec_depth_linear _ _
     | omega
 
 /-- PROPERTY-LEVEL, positive half: every site that the table regenerated from /repo classifies
 `loop` or `recursiveOnNesting` has a call depth bounded independently of the amount of data -/
 theorem table_verdict :
     ∀ s ∈ sites, s.2 = .loop ∨ s.2 = .recursiveOnNesting →
-      ∀ f, Fn.ofName s.1 = some f → ∀ n, siteDepth f s.2 n ≤ siteBound f n := by
+      ∀ f, Fn.ofName s.1 = some f → ∀ n, siteDepth f s.2 .flat n ≤ siteBound f n := by
   intro s _ hcls f _ n
   exact siteDepth_bounded f s.2 (by rcases hcls with h | h <;> simp [h]) n
 
@@ -422,25 +763,19 @@ theorem table_verdict :
 bound: the property is refuted at that site with the explicit family of size `n` -/
 theorem table_refuted :
     ∀ s ∈ sites, s.2 = .selfRecursiveOnData →
-      ∀ f, Fn.ofName s.1 = some f → ∀ n, siteDepth f s.2 n ≥ n := by
-  intro s _ hcls f _ n
-  rw [hcls]; exact siteDepth_linear f n
+      ∀ f, Fn.ofName s.1 = some f → ∀ sh n, siteDepth f s.2 sh n ≥ n := by
+  intro s _ hcls f _ sh n
+  rw [hcls]; exact siteDepth_linear f sh n
 
 /-- all sites of the current table are bounded -/
 def AllBounded : Prop :=
-  ∀ s ∈ sites, ∃ f, Fn.ofName s.1 = some f ∧ ∀ n, siteDepth f s.2 n ≤ siteBound f n
+  ∀ s ∈ sites, ∃ f, Fn.ofName s.1 = some f ∧ ∀ n, siteDepth f s.2 .flat n ≤ siteBound f n
 
 /-- some site of the current table is unbounded -/
 def SomeUnbounded : Prop :=
-  ∃ s ∈ sites, ∃ f, Fn.ofName s.1 = some f ∧ ∀ n, siteDepth f s.2 n ≥ n
+  ∃ s ∈ sites, ∃ f, Fn.ofName s.1 = some f ∧ ∀ n, siteDepth f s.2 .flat n ≥ n
 
-/-- the verdict on the current table, decidable: is any site classified `selfRecursiveOnData`? -/
-def anyDataRecursion : Bool := sites.any (fun s => isRec s.2)
-
-/-- the property holds of /repo's current text iff the regenerated table has no
-`selfRecursiveOnData` row: that Boolean decides which of the two property-level statements holds.
-(On the unchanged /repo it is `true`: the findings; after the repairs it evaluates to `false` and
-`AllBounded` follows.) -/
+/-- the regenerated table decides which of the two property-level statements holds -/
 theorem table_status :
     (anyDataRecursion = false → AllBounded) ∧ (anyDataRecursion = true → SomeUnbounded) := by
   have known := table_names_known
@@ -461,7 +796,31 @@ theorem table_status :
     refine ⟨s, hs, f, hf, fun n => ?_⟩
     have : s.2 = .selfRecursiveOnData := by
       cases hc : s.2 <;> simp [hc, isRec] at hrec ⊢
-    rw [this]; exact siteDepth_linear f n
+    rw [this]; exact siteDepth_linear f .flat n
+
+/-- for the table regenerated from today's /repo: every anchored site is bounded on inputs without
+chains of anonymous blank nodes (unconditional: `table_all_bounded` is decided on the table) -/
+theorem all_bounded : AllBounded := table_status.1 table_all_bounded
+
+/-- the chain shape at the prettifier, following the generated `prettyBnodeNestingCap`:
+uncapped (today) — FINDING: the depth exceeds every bound; capped at `c` — bounded by 11 + 6 c
+for every length of the chain -/
+theorem pretty_chain_status (cls : SiteClass) (hc : cls ≠ .selfRecursiveOnData) :
+    match prettyBnodeNestingCap with
+    | none => ∀ n, siteDepth .prettyWriteCycle cls .bnodeChain n ≥ n
+    | some c => ∀ n, siteDepth .prettyWriteCycle cls .bnodeChain n ≤ 11 + 6 * c := by
+  have hr : isRec cls = false := by cases cls <;> simp_all [isRec]
+  cases hcap : prettyBnodeNestingCap with
+  | none =>
+    intro n
+    simp only [siteDepth, hr, famChain, hcap, wTree, wProps, wTerm_chain]
+    simp; omega
+  | some c =>
+    intro n
+    have hk : (chainPT (min n c)).nestAll ≤ c := by rw [nestAll_chain]; omega
+    have := pretty_depth_bounded (chainPT (min n c))
+    simp only [siteDepth, hr, famChain, hcap, wTree, wProps, wTerm]
+    simp; omega
 
 /-! ## the hypotheses are satisfiable, the statements are not vacuous -/
 
@@ -477,5 +836,19 @@ example : nesting (.triple (.iri []) (.iri []) (.triple (.iri []) (.iri []) (.li
 example : (bgpRec (fun (_ : Nat) (b : Nat) => [b, b + 1, b + 2]) [0, 1] 0).2 = 3 := by decide
 example : (bgpRec (fun (_ : Nat) (b : Nat) => [b, b + 1, b + 2]) [0, 1] 0).1.length = 9 := by decide
 example : ∃ s ∈ sites, s.2 = .loop ∨ s.2 = .recursiveOnNesting := ⟨("cnq::nq", .recursiveOnNesting), by decide, by simp⟩
+-- the bounds are attained (the constants cannot be lowered)
+example : (termCmpD (.triple (.iri []) (.iri []) (.triple (.iri []) (.iri []) (.iri ['a'])))
+    (.triple (.iri []) (.iri []) (.triple (.iri []) (.iri []) (.iri ['b'])))) = (.lt, 3) := by decide
+example : (nqW (.triple (.iri []) (.iri []) (.lit ['\n', 'x'] ['d']))).2 = 3 := by decide
+example : (ntWriteTerm (.triple (.iri []) (.iri []) (.triple (.iri []) (.iri []) (.bnode [])))).2 = 5 := by decide
+example : (cmpBindingsWith famEv famCriteria 3 4) = (.lt, 2) := by decide
+example : orderByDepth famEv famCriteria [0, 1, 2] = 2 := by decide
+example : (jsonify (famJNodes 3) 0 true).2 = 2 := by
+  rw [jsonify]; simp [famJNodes, jsonify_nested]; decide
+example : convertD (.sub (.cons (.sub (.cons .leaf .nil)) (.cons .leaf .nil))) = 5 := by decide
+example : selectD 3 famQuery = 6 ∧ selectD 0 famQuery = 5 ∧ famQuery.height = 2 := by decide
+example : wTerm (chainPT 3) = 16 ∧ (chainPT 3).nestData = 0 ∧ (chainPT 3).nestAll = 3 := by decide
+example : wTree .atom (famArcs 4) = 7 := by decide
+example : (dedupRec (some 1) [1, 1, 1, 2]).depth = 4 ∧ (dedupLoop (some 1) [1, 1, 1, 2]).item = some 2 := by decide
 
 end SophiaProofs.C16
